@@ -3,6 +3,7 @@
  * {s,v,a,(,),{,},Z} (one representative per class the grammar distinguishes). */
 #include "verif_str.h"
 #include "dbus/dbus-marshal-validate.h"
+#include "dbus/dbus-signature.h"
 #ifndef VERIF_N
 #define VERIF_N 7
 #endif
@@ -15,6 +16,11 @@ long verif_gk, verif_gk2, verif_w, verif_w2; int verif_flag;
 unsigned char in_buf[VERIF_N + 8];
 int in_len;
 unsigned char nondet_uchar (void); int nondet_int (void);
+#if VERIF_SINGLE
+void dbus_set_error (DBusError *error, const char *name, const char *format, ...) { if (error) error->name = name; }
+const char *_dbus_validity_to_error_message (DBusValidity v) { return "x"; }
+void _dbus_warn_check_failed (const char *format, ...) { __CPROVER_assert (0, "a _dbus_return_if_fail check fired"); }
+#endif
 void harness (void)
 {
   DBusRealString rs; int i; DBusValidity got; int want;
@@ -29,10 +35,20 @@ void harness (void)
       in_buf[i] = c;
     }
   in_buf[in_len] = 0;
+#if VERIF_SINGLE
+  for (i = 0; i < VERIF_N; i++) __CPROVER_assume (i >= in_len || in_buf[i] != 0);   /* C string */
+#endif
   rs.str = in_buf; rs.len = in_len; rs.allocated = VERIF_N + 8; rs.constant = 1; rs.locked = 1; rs.valid = 1; rs.align_offset = 0;
+#if VERIF_SINGLE
+  /* the single-complete-type form through the public API (C string) */
+  got = dbus_signature_validate_single ((const char *) in_buf, NULL) ? DBUS_VALID : DBUS_INVALID_FOR_UNKNOWN_REASON;
+  want = spec_signature_single (in_buf, in_len);
+  __CPROVER_assert ((got == DBUS_VALID) == (want != 0), "dbus_signature_validate_single agrees with the reference (exactly one complete type)");
+#else
   got = _dbus_validate_signature_with_reason ((DBusString *) &rs, 0, in_len);
   want = spec_signature (in_buf, in_len);
   __CPROVER_assert ((got == DBUS_VALID) == (want != 0), "signature validator agrees with the reference recogniser");
+#endif
   if (got == DBUS_VALID) REACH("accept"); else REACH("reject");
   if (got == DBUS_VALID && in_len == VERIF_N) REACH("accept-maxlen");
 }
